@@ -1,5 +1,5 @@
 (* C06 — elapsed-unit differences are the exact difference of the instants truncated toward zero. *)
-From Astro Require Import Base DateModel TimeModel ApiModel InstantSpec TimeProofs SinceTime.
+From Astro Require Import Base DateModel TimeModel ApiModel InstantSpec TimeProofs SinceTime SinceLaws.
 
 Theorem C06_hours : forall a b, Inv_dt a -> Inv_dt b -> dt_hours_since a b = Z.quot (instant a - instant b) NANOS_PER_HOUR.
 Proof. exact c06_hours. Qed.
@@ -44,6 +44,21 @@ Proof. exact date_days_since_is. Qed.
 Theorem C06_date_duration_between : forall a b, date_duration_between a b = Z.abs (a - b) * SECS_PER_DAY.
 Proof. exact date_duration_between_is. Qed.
 
+(* "hence is antisymmetric" for every unit and every type; "duration_between ... is symmetric" for every type.
+   dt_antisym_all a b := x_since a b = - x_since b a for days, hours, minutes, seconds, millis, micros, nanos;
+   tm_antisym_all the same for the six units of Time *)
+Theorem C06_antisym_all : forall a b, Inv_dt a -> Inv_dt b -> dt_antisym_all a b.
+Proof. exact dt_since_antisym. Qed.
+Theorem C06_time_antisym_all : forall a b, Inv_tm a -> Inv_tm b -> tm_antisym_all a b.
+Proof. exact time_since_antisym. Qed.
+Theorem C06_date_antisym : forall a b, date_days_since a b = - date_days_since b a.
+Proof. exact date_since_antisym. Qed.
+Theorem C06_duration_between_sym :
+  (forall a b, Inv_dt a -> Inv_dt b -> dt_duration_between a b = dt_duration_between b a) /\
+  (forall a b, time_duration_between a b = time_duration_between b a) /\
+  (forall a b, date_duration_between a b = date_duration_between b a).
+Proof. exact duration_between_sym_all. Qed.
+
 Print Assumptions C06_time_hours.
 Print Assumptions C06_time_minutes.
 Print Assumptions C06_time_seconds.
@@ -63,3 +78,7 @@ Print Assumptions C06_days.
 Print Assumptions C06_duration_between.
 Print Assumptions C06_antisym.
 Print Assumptions C06_inverts_add.
+Print Assumptions C06_antisym_all.
+Print Assumptions C06_time_antisym_all.
+Print Assumptions C06_date_antisym.
+Print Assumptions C06_duration_between_sym.
